@@ -166,6 +166,21 @@ impl<'a> Gen<'a> {
                 name: name.into(),
                 args: vec![("if".into(), v)],
             });
+            if rng.chance(1, 3) {
+                // both directives on one selection, in either order
+                let other = if name == "skip" { "include" } else { "skip" };
+                let v = if self.o.variables && rng.bool() {
+                    self.var_for(rng, &TyRef::named("Boolean").non_null())
+                } else {
+                    Val::Bool(rng.bool())
+                };
+                let app = DirApp { name: other.into(), args: vec![("if".into(), v)] };
+                if rng.bool() {
+                    out.push(app);
+                } else {
+                    out.insert(0, app);
+                }
+            }
         }
         if self.o.directives {
             let mut apps = dir_apps(rng, self.s, loc, false, 1, 8);
